@@ -9,8 +9,12 @@ RULE = ("random schemas (package names incl. dotted ones, 0-4 services, 0-6 meth
         "directly; the abstract structure of the output (identifiers, Invoke strings, descriptor table, handlers) vs Gen.gen_file; every generated "
         "package is compiled together with protoc-gen-go's message types in a scratch module and a per-method in-memory round trip through the "
         "generated client stub, registration function and handler is run; two runs must be byte-identical; the checked-in *_wsrpc.pb.go files must "
-        "be reproduced from their embedded descriptors (after gofmt normalisation); GoCamelCase names vs Gen.go_camel")
-ASSUMPTIONS = ["Go type checking and protogen's import resolution are not modelled; go build and the round trips validate them on the sample"]
+        "be reproduced from their embedded descriptors (after gofmt normalisation); GoCamelCase names vs Gen.go_camel; every run has a schema "
+        "without a package statement; for the grpc flavour the grpc half is round-tripped as well (generated grpc client stub -> a router which "
+        "splits the path at the last slash and looks the service up by name, as grpc.Server does -> generated grpc handler, without and with an "
+        "interceptor, which must be told /<full service name>/<method>); two files in different Go packages, the second using a message of the "
+        "first, generated in one run and in a run each must give the same bytes, and the joint output is compiled")
+ASSUMPTIONS = ["Go type checking and protogen's import resolution are not modelled; go build and the round trips validate them on the sample", "google.golang.org/grpc is a stand-in with its API shape (the real module cannot be built offline); its router is the harness's"]
 
 
 def build(bin_name, pkg, cwd):
